@@ -125,22 +125,21 @@ pub fn append_rule(rule: Arc<Rule>) -> bool {
         }
     }
     let mut placeholder = Vec::new();
+    let rule_map = RULE_MAP.lock().unwrap();
+    let mut controller_map = CONTROLLER_MAP.write().unwrap();
+    // the helper moves every reused controller out of the old list into the new one,
+    // so the new list is the complete set of controllers of the resource
     let new_tcs_of_res = build_resource_traffic_shaping_controller(
         &rule.resource,
-        RULE_MAP.lock().unwrap().get(&rule.resource).unwrap(),
-        CONTROLLER_MAP
-            .write()
-            .unwrap()
+        rule_map.get(&rule.resource).unwrap(),
+        controller_map
             .get_mut(&rule.resource)
             .unwrap_or(&mut placeholder),
     );
-    if !new_tcs_of_res.is_empty() {
-        CONTROLLER_MAP
-            .write()
-            .unwrap()
-            .entry(rule.resource.clone())
-            .or_default()
-            .push(Arc::clone(&new_tcs_of_res[0]));
+    if new_tcs_of_res.is_empty() {
+        controller_map.remove(&rule.resource);
+    } else {
+        controller_map.insert(rule.resource.clone(), new_tcs_of_res);
     }
     true
 }
